@@ -105,6 +105,8 @@ def cases(tier, seed):
             sp["crop"]["kw"]["GDDmethod"] = int(gen.pick(rng, [1, 2, 2, 3]))
             if sp["weather"]["kind"] == "synth" and i % 4 == 0:
                 sp["weather"]["temp_add"] = float(gen.pick(rng, [-3.0, -5.0]))
+        if cat["CalendarType"] == 2 and i % 2 == 1:
+            sp["weather"]["whole_degrees"] = True      # exact hits of the thermal thresholds
         if cat["CalendarType"] == 2:
             mth, dd = [int(x) for x in sp["crop"]["planting"].split("/")]
             h = dt.date(2001, mth, dd) + dt.timedelta(days=min(340, gen.crop_len_days(sp["crop"]["name"]) + 70))
